@@ -66,6 +66,9 @@ def evaluate(case):
                               expected=at, tol=CONT_TOL))
                 break
     below = np.linspace(15.0, pb, n + 1)[:-1] if pb > 15 else np.array([])
+    # the last psi below the bubble point (a 'snap to the bubble point' tolerance would flatten it)
+    below = np.unique(np.concatenate([below, pb - np.array([0.9, 0.5, 0.1, 0.01, 1e-4])]))
+    below = below[(below >= 15.0) & (below < pb)]
     above = np.linspace(pb, 2.5 * pb, n + 1)
     rs_b = np.array([fns["R_s"](p) for p in below], dtype=float)
     rs_a = np.array([fns["R_s"](p) for p in above], dtype=float)
